@@ -73,13 +73,30 @@ class SeqBox:           # symbolic-length local list (after a loop havoc, or a l
 
 
 class AbsBox:           # abstract collection: symbolic length, elements of an annotated shape (or opaque)
-    def __init__(self, kind="list", length=None, elem_ann=None):
+    def __init__(self, kind="list", length=None, elem_ann=None, reads=None):
         self.kind = kind
         self.length = length          # z3 Int (>= 0) or None when unknown
         self.elem_ann = elem_ann      # ast annotation of the elements, or None (reads unsupported)
+        self.reads = dict(reads or {})   # index term id -> element already read (reads are deterministic)
 
     def clone(self):
-        return AbsBox(self.kind, self.length, self.elem_ann)
+        b = AbsBox(self.kind, self.length, self.elem_ann, self.reads)
+        b.version = getattr(self, "version", 0)
+        if hasattr(self, "elem_inv"):
+            b.elem_inv = self.elem_inv
+            b.owner = getattr(self, "owner", None)
+        if hasattr(self, "items"):
+            b.items = list(self.items)
+        return b
+
+
+class GenV:
+    """The (lazy) result of calling a generator function that has a contract."""
+    def __init__(self, contract, fi, env, node):
+        self.contract = contract
+        self.fi = fi
+        self.env = env
+        self.node = node
 
 
 class LambdaV:
@@ -90,14 +107,15 @@ class LambdaV:
 
 
 class ObjBox:           # instance of a repo class (or exception) with symbolic fields
-    def __init__(self, cls, fields=None, symbolic=False, ident=None):
+    def __init__(self, cls, fields=None, symbolic=False, ident=None, name="self"):
         self.cls = cls                # class short name
         self.fields = dict(fields or {})
         self.symbolic = symbolic      # fields not present are created lazily (pre-existing object)
         self.ident = ident            # z3 Int id when the object pre-exists in the heap
+        self.name = name              # parameter name it came from (key prefix in assume_fields)
 
     def clone(self):
-        return ObjBox(self.cls, self.fields, self.symbolic, self.ident)
+        return ObjBox(self.cls, self.fields, self.symbolic, self.ident, self.name)
 
 
 class FuncV:
@@ -285,15 +303,22 @@ def _is_value(t, depth=0):
 # solver front
 # ---------------------------------------------------------------------------
 class SolverFront:
-    def __init__(self, timeout_ms=10000, feas_timeout_ms=3000):
+    """z3 first; cvc5 (--strings-exp) takes z3's unknowns for obligations (never for path pruning)."""
+
+    def __init__(self, timeout_ms=10000, feas_timeout_ms=3000, cvc5_timeout_ms=15000):
         self.timeout_ms = timeout_ms
         self.feas_timeout_ms = feas_timeout_ms
+        self.cvc5_timeout_ms = cvc5_timeout_ms
         self.nqueries = 0
         self.time = 0.0
         self.unknowns = 0
+        self.cvc5_calls = 0
+        self.cvc5_decided = 0
+        self.last_solver = "z3"
 
-    def check(self, formulas, timeout_ms=None, want_model=False):
+    def check(self, formulas, timeout_ms=None, want_model=False, use_cvc5=False):
         """-> ('sat'|'unsat'|'unknown', model-or-None)"""
+        self.last_solver = "z3"
         fs = []
         for f in formulas:
             f = z3.simplify(f)
@@ -303,7 +328,7 @@ class SolverFront:
                 continue
             fs.append(f)
         if not fs:
-            return "sat", (z3.Solver().model() if False else None)
+            return "sat", None
         t0 = time.time()
         s = z3.Solver()
         s.set("timeout", int(timeout_ms or self.timeout_ms))
@@ -316,7 +341,41 @@ class SolverFront:
         if r == z3.sat:
             return "sat", (s.model() if want_model else None)
         self.unknowns += 1
+        if use_cvc5:
+            r2, txt = self.cvc5(s)
+            if r2 in ("sat", "unsat"):
+                self.last_solver = "cvc5"
+                self.cvc5_decided += 1
+                return r2, ({"cvc5_model": txt} if r2 == "sat" else None)
         return "unknown", None
+
+    def cvc5(self, solver):
+        import os
+        import subprocess
+        import tempfile
+        self.cvc5_calls += 1
+        t0 = time.time()
+        text = "(set-logic ALL)\n" + solver.to_smt2().replace("seq.nth_i", "seq.nth").replace("seq.nth_u", "seq.nth")
+        text += "\n(get-model)\n"
+        fd, path = tempfile.mkstemp(suffix=".smt2", prefix="pyvc-")
+        try:
+            with os.fdopen(fd, "w") as fh:
+                fh.write(text)
+            p = subprocess.run(["/usr/bin/cvc5", "--strings-exp", "--produce-models", "--tlimit=%d" % self.cvc5_timeout_ms, path],
+                               capture_output=True, text=True, timeout=self.cvc5_timeout_ms / 1000.0 + 10)
+            out = p.stdout.strip()
+            first = out.splitlines()[0].strip() if out else ""
+            self.time += time.time() - t0
+            if first in ("sat", "unsat"):
+                return first, out[len(first):].strip()[:4000]
+            return "unknown", (out + p.stderr)[:300]
+        except (OSError, subprocess.TimeoutExpired) as ex:
+            return "unknown", str(ex)
+        finally:
+            try:
+                os.remove(path)
+            except OSError:
+                pass
 
     def feasible(self, formulas):
         r, _ = self.check(formulas, timeout_ms=self.feas_timeout_ms)
